@@ -99,13 +99,14 @@ def import_library():
     import scipy.ndimage  # noqa: F401
     import scipy.special  # noqa: F401
     from . import locks
-    locks.install()          # locks created by the library at import time become cooperative
-    try:
-        import numdifftools
-        import numdifftools.limits, numdifftools.extrapolation, numdifftools.step_generators  # noqa
-        import numdifftools.finite_difference  # noqa: F401
-    finally:
-        locks.uninstall()
+    # From here on threading.Lock / RLock create cooperative locks (sim/locks.py) in this process and
+    # in everything forked from it: locks the library creates at import time, lazily during calls, or
+    # in an os.register_at_fork hook all become yield points for simulated tasks, and behave exactly
+    # like real locks for every other thread.
+    locks.install()
+    import numdifftools
+    import numdifftools.limits, numdifftools.extrapolation, numdifftools.step_generators  # noqa
+    import numdifftools.finite_difference  # noqa: F401
     here = os.path.realpath(numdifftools.__file__)
     if not here.startswith(LIB_ROOT):
         raise RuntimeError('numdifftools imported from %s, expected under %s' % (here, LIB_ROOT))
